@@ -18,15 +18,28 @@ type RH struct {
 	Adds     int `json:"adds"`
 	Bulk     int `json:"bulk"`
 	Queriers int `json:"queriers"`
+	Pad      int `json:"pad,omitempty"` // extra bytes per event
 }
 
-const ruleRace = "race tier: a single-node RaftNode in an executor child built with the Go race detector; drawn numbers of concurrent adder goroutines (AddBulk of drawn size) and querier goroutines (QueryMembership, QueryMembershipConsistency, QueryConsistency on events already acknowledged) use the public API at once. Oracle: no query or add panics, and the race detector reports no data race whose stack contains a github.com/bbva/qed/ frame. evaluations = stress runs. Non-trivial: >=2 adders or >=1 querier ran concurrently with an adder; distinct = FNV-64 of the parameters (+ run index)."
+const ruleRace = "race tier: a single-node RaftNode in an executor child built with the Go race detector; drawn numbers of concurrent adder goroutines (AddBulk of drawn size) and querier goroutines (QueryMembership, QueryMembershipConsistency, QueryConsistency on events already acknowledged) use the public API at once (one case in three with events of 64-256 KiB). Oracle: the stress completes (a wedge between readers and the apply path shows as a call that never returns), no query or add panics, and the race detector reports no data race whose stack contains a github.com/bbva/qed/ frame. evaluations = stress runs. Non-trivial: >=2 adders or >=1 querier ran concurrently with an adder; distinct = FNV-64 of the parameters (+ run index)."
 
 func TestRaceStress(t *testing.T) {
 	rec := pbt.NewRec("C10", "TestRaceStress", ruleRace, "the race detector only sees schedules that were executed")
 	i := 0
 	pbt.Run(t, rec, func(rt *rapid.T) RH {
-		return RH{Adders: rapid.IntRange(1, 4).Draw(rt, "adders"), Adds: rapid.IntRange(5, pbt.Scale(25, 80)).Draw(rt, "adds"), Bulk: rapid.IntRange(1, 6).Draw(rt, "bulk"), Queriers: rapid.IntRange(1, 6).Draw(rt, "queriers")}
+		h := RH{Adders: rapid.IntRange(1, 4).Draw(rt, "adders"), Adds: rapid.IntRange(5, pbt.Scale(25, 80)).Draw(rt, "adds"), Bulk: rapid.IntRange(1, 6).Draw(rt, "bulk"), Queriers: rapid.IntRange(1, 6).Draw(rt, "queriers")}
+		// one case in three uses big events (fewer of them): event-based queries then spend
+		// milliseconds, not microseconds, between entering the node and reaching the trees
+		if rapid.IntRange(0, 2).Draw(rt, "big-events") == 0 {
+			h.Pad = rapid.SampledFrom([]int{65536, 262144}).Draw(rt, "pad")
+			if h.Adds > 12 {
+				h.Adds = 12
+			}
+			if h.Bulk > 2 {
+				h.Bulk = 2
+			}
+		}
+		return h
 	}, func(h RH, rec *pbt.Rec) error {
 		i++
 		x, err := rig.StartExec("nodeexec.race")
@@ -41,8 +54,11 @@ func TestRaceStress(t *testing.T) {
 		if err := n.WaitLeader(30 * time.Second); err != nil {
 			return unsettled("%v", err)
 		}
-		r, err := x.Call(&xp.Req{Op: "node-stress", Name: "n", A: uint64(h.Adders), B: uint64(h.Adds), C: uint64(h.Bulk), N: uint64(h.Queriers)}, 300*time.Second)
+		r, err := x.Call(&xp.Req{Op: "node-stress", Name: "n", A: uint64(h.Adders), B: uint64(h.Adds), C: uint64(h.Bulk), N: uint64(h.Queriers), Args: []string{fmt.Sprintf("pad=%d", h.Pad)}}, 80*time.Second)
 		if err != nil {
+			if d, ok := err.(*rig.Death); ok && d.Timeout {
+				return fmt.Errorf("concurrent use of the public API (%d adders x %d insertions, %d queriers) has not returned after 80 s (normally seconds): readers and the apply path are wedged: %v", h.Adders, h.Adds, h.Queriers, err)
+			}
 			return fmt.Errorf("the node died under concurrent use of the public API: %v", err)
 		}
 		rec.Case([]interface{}{h, i}, true)
